@@ -6,7 +6,7 @@
    about whatever the tree contains today, `_refuted` theorems are the defects of the unfixed variants. *)
 Require Import ZArith List Bool Lia.
 Require Import IW.SAFE.Buf IW.SAFE.Buf_proofs IW.SAFE.Ptr IW.SAFE.Ptr_proofs IW.SAFE.Conv2 IW.SAFE.Conv2_proofs
-  IW.SAFE.Unesc IW.SAFE.Unesc_proofs IW.SAFE.Num IW.SAFE.Num_proofs IW.SAFE.Xstr IW.SAFE.Xstr_proofs IW.Gen.Facts.
+  IW.SAFE.Unesc IW.SAFE.Unesc_proofs IW.SAFE.Num IW.SAFE.Num_proofs IW.SAFE.Xstr IW.SAFE.Xstr_proofs IW.SAFE.Re IW.SAFE.Re_proofs IW.Gen.Facts.
 Import ListNotations. Local Open Scope Z_scope.
 
 (* ---- JSON pointer parser (_jbl_ptr_pool) *)
@@ -126,3 +126,42 @@ Example C17_xstr_ex : exists x0 x', xcreate 1 = Ok x0 /\
   xrun x0 [XCat [97; 98; 99]; XInsert 1 [120; 121]; XUnshift [122]; XShift 2; XPop 1; XInsert 9 [48]] = Ok x' /\
   xcontent x' = [Some 120; Some 121; Some 98].
 Proof. do 2 eexists. vm_compute. repeat split; reflexivity. Qed.
+
+(* ---- iwre_create + iwre_match (parse.c, compile.c, vm.c, iwre.c): the caller's match array is an explicit input of the
+   model (`prior` = its contents BEFORE the call: CNull, or CStale = any non-null leftover).  The answer - return value and
+   every slot - is the answer for a zeroed array of the same length: a function of (pattern, text, length) alone.
+   (An odd length is refused with -1/EINVAL and the array is returned untouched: C17_re_odd_untouched.) *)
+Theorem C17_re_depends_only_on_input : forall pat text prior, Z.odd (Z.of_nat (length prior)) = false ->
+  re_query_prior pat text prior = re_query pat text (Z.of_nat (length prior)).
+Proof. exact re_query_prior_indep. Qed.
+Print Assumptions C17_re_depends_only_on_input.
+(* ^(a)(a) on "aa", six slots full of leftovers *)
+Example C17_re_depends_only_on_input_ex :
+  re_query_prior [94; 40; 97; 41; 40; 97; 41] [97; 97] (repeat CStale 6) =
+    Ok (RMatch 3 [COff 0; COff 2; COff 0; COff 1; COff 1; COff 2]) /\
+  re_query_prior [40; 97; 41; 124; 40; 98; 41] [98] [CStale; CNull; CStale; CStale; CNull; CStale; CStale; CStale] =
+    Ok (RMatch 1 [COff 0; COff 1; CNull; CNull; COff 0; COff 1; CNull; CNull]).
+Proof. split; vm_compute; reflexivity. Qed.
+
+Theorem C17_re_return_value_depends_only_on_input : forall code text prior prior', length prior = length prior' ->
+  rfst (re_match code text prior) = rfst (re_match code text prior').
+Proof. exact re_match_ret_indep. Qed.
+Print Assumptions C17_re_return_value_depends_only_on_input.
+Theorem C17_re_odd_untouched : forall code text prior, Z.odd (Z.of_nat (length prior)) = true ->
+  re_match code text prior = Ok (-1, prior).
+Proof. exact re_match_odd. Qed.
+Print Assumptions C17_re_odd_untouched.
+
+(* the reported group count n: 2 * n slots fit into the array, and n <= groups + 1 (group 0 = the whole match), whatever the
+   array held before; the array keeps its length *)
+Theorem C17_re_count_bounded : forall pat text prior r a, re_query_prior pat text prior = Ok (RMatch r a) ->
+  length a = length prior /\ -1 <= r /\ 2 * r <= Z.of_nat (length prior) /\ r <= re_groups pat + 1.
+Proof. exact re_query_bounds. Qed.
+Print Assumptions C17_re_count_bounded.
+(* 31 groups that all take part + group 0 fill exactly the re_max_matches = 64 slots a VM thread records; the array has 66
+   slots full of leftovers: 32 groups are reported and slots 64, 65 are null *)
+Example C17_re_count_bounded_ex : exists a,
+  re_query_prior (94 :: concat (repeat [40; 97; 41] 31)) (repeat 97 31) (repeat CStale 66) = Ok (RMatch 32 a) /\
+  nth 63 a CStale = COff 31 /\ nth 64 a CStale = CNull /\ nth 65 a CStale = CNull /\
+  re_groups (94 :: concat (repeat [40; 97; 41] 31)) = 31.
+Proof. eexists. vm_compute. repeat split; reflexivity. Qed.
